@@ -283,8 +283,13 @@ class TaskDispatcher(object):
         if branch_id and execution_arn in branch_metadata:
             # Get the dict containing all the branch results for this execution
             all_branch_results = branch_metadata[execution_arn].results
-            branch_results = all_branch_results[branch_id]
-            if branch_results.get("terminated"):
+            """
+            After a restart the results of a Map/Parallel state are re-created
+            lazily as its branch events are redelivered, so the Branch Metadata
+            of the execution may exist without (yet) holding this branch ID.
+            """
+            branch_results = all_branch_results.get(branch_id)
+            if branch_results and branch_results.get("terminated"):
                 return True
         return False
 
